@@ -112,10 +112,9 @@ def build_model(spec, units_override=None):
       x = L.LSTM(l["units"], return_sequences=l.get("rs", False),
                  use_bias=l.get("use_bias", True), name=n)(x)
     elif k == "GRU":
-      # reset_after=True cannot be built as QGRU in this image
-      # (array_ops.unstack is missing in TF 2.21): environment limitation.
       x = L.GRU(l["units"], return_sequences=l.get("rs", False),
-                reset_after=False, use_bias=l.get("use_bias", True), name=n)(x)
+                reset_after=l.get("reset_after", False),
+                use_bias=l.get("use_bias", True), name=n)(x)
     elif k == "SimpleRNN":
       x = L.SimpleRNN(l["units"], return_sequences=l.get("rs", False),
                       use_bias=l.get("use_bias", True), name=n)(x)
@@ -274,6 +273,8 @@ def seq_layers(draw):
                                      "SimpleRNN": "rnn_0",
                                      "Bidirectional": "bi_0"}[kind],
                  "units": draw(st.integers(2, 3))})
+  if kind == "GRU":
+    layers[-1]["reset_after"] = draw(st.booleans())
   layers.append({"k": "Dense", "name": "dense", "units": 2,
                  "act": draw(_act_st(final=True)), "use_bias": True})
   return inp, layers
@@ -354,13 +355,36 @@ def limit_st(draw, layers, qc_pairs, force_last_only=False):
     return e
 
   pairs = []
-  default = draw(st.sampled_from([None, None, 4, 8, 16]))
-  lo_all = max(_min_bits(qc_pairs["kernel"]), _min_bits(qc_pairs["bias"]),
-               _min_bits(act_pairs))
-  if default is not None and default < lo_all:
+  # ---- 'default': absent (8), one number, or a list in the documented shape
+  # of a limit list ([kernel, bias, activation] / [kernel, bias, recurrent,
+  # activation]; the constructor asserts 3 <= len <= 4) with entries that
+  # differ per role wherever the configuration allows it
+  kmin, bmin = _min_bits(qc_pairs["kernel"]), _min_bits(qc_pairs["bias"])
+  amin = _min_bits(act_pairs)
+  if "recurrent_activation" in qc_pairs:
+    amin = max(amin, _min_bits(qc_pairs["recurrent_activation"]))
+  lo_all = max(kmin, bmin, amin)
+
+  def cand(pairs_, lo, avoid=()):
+    ws = sorted(set(b for _, b in pairs_ if b >= lo) |
+                set(w for w in (2, 3, 4, 6, 8, 16) if w >= lo))
+    pref = [w for w in ws if w not in avoid]
+    return pref or ws
+
+  dkind = draw(st.sampled_from(["none", "none", "scalar", "list3", "list4",
+                                "list4"]))
+  if dkind == "none" and lo_all > 8:
+    dkind = "scalar"
+  if dkind == "none":
     default = None
-  if lo_all > 8:
-    default = 16
+  elif dkind == "scalar":
+    default = draw(st.sampled_from([w for w in (4, 8, 16) if w >= lo_all]))
+  else:
+    dk = draw(st.sampled_from(cand(qc_pairs["kernel"], kmin)))
+    db = draw(st.sampled_from(cand(qc_pairs["bias"], bmin, avoid=(dk,))))
+    dr = draw(st.sampled_from(cand(qc_pairs["kernel"], kmin, avoid=(db,))))
+    da = draw(st.sampled_from(cand(act_pairs, amin, avoid=(db, dr))))
+    default = [dk, db, da] if dkind == "list3" else [dk, db, dr, da]
   weight_layers = [l for l in layers if l["k"] in R.WEIGHT_CLASSES]
   if force_last_only:
     last = weight_layers[-1]
@@ -374,8 +398,13 @@ def limit_st(draw, layers, qc_pairs, force_last_only=False):
         if draw(st.integers(0, 7)) == 0:
           continue                       # class outside the limits
         e = full_entry(ml, c in R.RNN_CLASSES)
-        if c not in R.RNN_CLASSES and draw(st.integers(0, 3)) == 0:
-          e = e[:draw(st.integers(0, 2))]  # 'default replaces missing values'
+        # 'default replaces missing values': every length 0..full; a short
+        # recurrent list needs the 4-entry default (the constructor asserts it)
+        if c in R.RNN_CLASSES:
+          if dkind == "list4" and draw(st.integers(0, 1)) == 0:
+            e = e[:draw(st.integers(0, 3))]
+        elif draw(st.integers(0, 2)) == 0:
+          e = e[:draw(st.integers(0, 2))]
         pairs.append([c, e])
       elif c == "Activation":
         if draw(st.integers(0, 5)) == 0:
@@ -540,6 +569,26 @@ def dfs_specs(tier):
       "limit": [["Dense", [1, 4, 4]]],
       "layer_indexes": None, "tune_filters": "block", "tune_exc": "^$",
       "activation_bits": 4, "qconfig": _SMALL_QC, "arities": [5, 2]})
+  # G: short class lists completed from a 4-entry 'default' whose entries all
+  # differ ([kernel, bias, recurrent, activation]); bias strings of 4 widths
+  specs.append({
+      "input": [4, 2],
+      "layers": [
+          {"k": "Conv1D", "name": "conv1d_0", "filters": 2, "ks": 1, "padding": "valid", "act": "relu", "use_bias": True},
+          {"k": "Flatten", "name": "flatten"},
+          {"k": "Dense", "name": "dense", "units": 2, "act": None, "use_bias": True}],
+      "limit": [["Dense", [4]], ["Conv1D", []], ["default", [2, 4, 8, 3]]],
+      "layer_indexes": None, "tune_filters": "none", "tune_exc": "^$",
+      "activation_bits": 4,
+      "qconfig": {
+          "kernel": [["binary", 1], ["ternary", 2], ["quantized_bits(4,0,1)", 4],
+                     ["quantized_bits(8,0,1)", 8]],
+          "bias": [["quantized_bits(2,0,1)", 2], ["quantized_bits(4,0,1)", 4],
+                   ["quantized_bits(6,2,1)", 6], ["quantized_bits(8,3,1)", 8]],
+          "activation": [["quantized_relu(3,1)", 3], ["quantized_relu(4,2)", 4],
+                         ["quantized_relu(8,2)", 8]],
+          "linear": [["quantized_bits(4,1)", 4]]},
+      "arities": [2, 3, 2, 2]})
   if tier != "quick":
     # E: default configuration, conv stack with a group and list limits
     specs.append({
